@@ -45,6 +45,10 @@ CHECKS = {
             "12 programs/templates chosen for aliasing potential x 21 events (dumps, attribute reads, to_DiGraph, two template calls and a repeated one, match_template, operations on instances, 8 kinds of mutation of instances); BFS to depth 3 (thorough 5) with de-duplication on the tuple of digests; in every state: the program's digest (serialisation + deep content incl. optional keys) is unchanged, an instance changes only by mutations addressed to it, equal calls give equal instances.",
             "Digest observes programs through public attributes and dumps(). Mutations of the returned graph are not events.",
             "DESIGN.md section 5 C13"),
+    "C01": ("exploration", "bounded-exhaustive enumeration of valid scripts from the shared alphabet; round trip iterated to a text fixpoint",
+            "Every script of the stated families (all single arguments x metadata variants, all ordered pairs of 55 argument shapes in four syntactic arrangements, list keywords, mode forms, loops, tdm programs with p-arrays; thorough: triples, options x pairs, 3 statements) is loaded, serialised and re-loaded generation after generation until the text repeats; each generation must be equivalent to the previous one (exact for numbers/booleans/strings/lists/arrays, by evaluation for symbolic arguments). All generations are covered because dumps o loads is a function of the text once it repeats.",
+            "Trusted: the equivalence (bbv/props/equiv.py). Variables of non-tdm programs and presence of an args key are not compared.",
+            "DESIGN.md section 5 C01"),
     # id: (category, technique, text, note, design_ref)
     "C02": ("exploration", "bounded-exhaustive enumeration of script prefixes (BFS over item sequences) vs reference denotation",
             "Every item sequence over the statement menu up to the stated depth is rendered, loaded by the real parser/evaluator and compared with an independently written reference denotation; complete for the stated alphabet and depth, nothing beyond.",
